@@ -1,4 +1,8 @@
 //! Shared pieces of the correspondence harness: PRNG, hex, counting allocator.
+pub mod gen;
+pub mod msg;
+pub mod world;
+
 use std::alloc::{GlobalAlloc, Layout, System};
 use std::sync::atomic::{AtomicUsize, Ordering};
 
